@@ -78,7 +78,8 @@ Section BlockMapped.
   (* every unit touched by a request inside [0, total) has an entry *)
   Definition covers (total : Z) : Prop :=
     forall i, 0 <= i -> i * U < total ->
-      exists a, lookup i = Ok a /\ forall io n, exists segs, emit a i io n = Ok segs.
+      exists a, lookup i = Ok a /\
+        forall io n, 0 <= io -> 0 < n -> io + n <= U -> exists segs, emit a i io n = Ok segs.
 
   Theorem walk_ok fuel : forall off len total,
     covers total -> 0 <= off -> off + len <= total -> len < Z.of_nat fuel ->
@@ -93,7 +94,7 @@ Section BlockMapped.
       assert (Hn : 0 < n <= len) by (subst n; lia).
       assert (Hidx : 0 <= off / U) by (apply Z.div_pos; lia).
       destruct (Hcov (off / U) Hidx ltac:(nia)) as [a [Ha Hem]]. rewrite Ha. cbn [bind].
-      destruct (Hem (off mod U) n) as [segs ->]. cbn [bind].
+      destruct (Hem (off mod U) n ltac:(lia) ltac:(lia) ltac:(lia)) as [segs ->]. cbn [bind].
       destruct (IH (off + n) (len - n) total Hcov ltac:(lia) ltac:(lia) ltac:(lia)) as [rest ->].
       cbn [bind]. eauto.
   Qed.
@@ -110,11 +111,11 @@ Section ParentRange.
   Hypothesis emit_parent_range : forall idx a io n segs o m,
     emit a idx io n = Ok segs -> In (SParent o m) segs ->
     0 <= idx -> 0 <= io -> 0 < n -> io + n <= U ->
-    (idx * U + io) * ss <= o /\ 0 <= m /\ o + m <= (idx * U + io + n) * ss.
+    (idx * U + io) * ss <= o /\ 0 <= m /\ o + m <= (idx * U + io + n) * ss /\ o mod ss = 0 /\ m mod ss = 0.
 
   Theorem walk_parent_range fuel : forall off len p o m,
     0 <= off -> walk U lookup emit fuel off len = Ok p -> In (SParent o m) p ->
-    off * ss <= o /\ 0 <= m /\ o + m <= (off + Z.max 0 len) * ss.
+    off * ss <= o /\ 0 <= m /\ o + m <= (off + Z.max 0 len) * ss /\ o mod ss = 0 /\ m mod ss = 0.
   Proof.
     induction fuel as [|fuel IH]; intros off len p o m Hoff Hrun Hin.
     - simpl in Hrun. destruct (Z.leb_spec len 0); [|discriminate]. injection Hrun as <-. destruct Hin.
@@ -131,9 +132,10 @@ Section ParentRange.
       apply in_app_or in Hin. destruct Hin as [Hin|Hin].
       + assert (Hidx : 0 <= off / U) by (apply Z.div_pos; lia).
         destruct (emit_parent_range (off / U) a (off mod U) n segs o m Hem Hin Hidx ltac:(lia) ltac:(lia) ltac:(lia))
-          as (H1 & H2 & H3).
-        replace (off / U * U + off mod U) with off in * by lia. nia.
-      + destruct (IH (off + n) (len - n) rest o m ltac:(lia) Hrest Hin) as (H1 & H2 & H3). nia.
+          as (H1 & H2 & H3 & H4 & H5).
+        replace (off / U * U + off mod U) with off in * by lia. repeat split; try assumption; nia.
+      + destruct (IH (off + n) (len - n) rest o m ltac:(lia) Hrest Hin) as (H1 & H2 & H3 & H4 & H5).
+        repeat split; try assumption; nia.
   Qed.
 End ParentRange.
 
